@@ -45,6 +45,8 @@ func main() {
 	tags := flag.String("tags", "verif", "build tags")
 	cpuprof := flag.String("cpuprofile", "", "write cpu profile")
 	noDom := flag.Bool("no-dom", false, "disable the exact small-symbol domain shortcut (every decision goes to the SMT solver)")
+	aInc := flag.String("assert-include", "", "only check assertions whose id matches")
+	aExc := flag.String("assert-exclude", "", "skip assertions whose id matches")
 	shard := flag.String("shard", "", "i/n: explore only alternatives i, i+n, ... of the first free choice")
 	flag.Parse()
 	if *cpuprof != "" {
@@ -54,6 +56,12 @@ func main() {
 	}
 
 	debug.SetGCPercent(400)
+	if *aInc != "" {
+		assertInclude = regexp.MustCompile(*aInc)
+	}
+	if *aExc != "" {
+		assertExclude = regexp.MustCompile(*aExc)
+	}
 	result := &RunOutput{Package: *pkgPat, Solver: *solverName}
 	writeOut := func() {
 		b, _ := json.MarshalIndent(result, "", " ")
